@@ -369,6 +369,27 @@ fn adversarial(thorough: bool) -> Vec<Value> {
             out.push(lib_case(&format!("rule r {{\n  let x = regex_replace(a, \"{}\", \"-\")\n  %x exists\n}}\n", re.replace('\\', "\\\\")), &format!("{{\"a\":\"{}\"}}", sx), "regex"));
         }
     }
+    // --- parameterised rules called with every arity 0..3 against declarations of arity 1..2, odd arguments
+    for decl in ["rule p(x) { %x exists }", "rule p(x, y) { %x == %y }", "rule p(x) { a == %x\n %x !empty }"] {
+        for call in ["p()", "p(a)", "p(a, 1)", "p(a, 1, \"s\")", "p(nosuch)", "p(a[ zz exists ])", "p(count(a))", "p(p)", "p(%u)", "q(a)", "not p(a, b, c, d)"] {
+            for d in ["{\"a\":1}", "{\"a\":[1,2]}", "{}"] {
+                out.push(lib_case(&format!("{}\nrule r {{ {} }}\n", decl, call), d, "parameterised-arity"));
+                out.push(lib_case(&format!("{}\nrule r when {} {{ a exists }}\n", decl, call), d, "parameterised-arity"));
+            }
+        }
+    }
+    // --- YAML tags: every CloudFormation short-form function name (also those outside the loader's tables), odd tags
+    for tag in ["Ref", "GetAtt", "Base64", "Sub", "GetAZs", "ImportValue", "Condition", "RefAll", "Select", "Split", "Join", "FindInMap", "And", "Equals", "Contains", "EachMemberIn", "EachMemberEquals", "ValueOf", "If", "Not", "Or", "Cidr", "Length", "ToJsonString", "Transform", "ForEach", "GetParam", "Rain::Embed", "", "!", "!str", "!int", "!float", "!bool", "!null", "!map", "!seq", "!binary", "!set", "<tag:yaml.org,2002:int>", "x y"] {
+        for payload in ["x", "[a, b]", "{k: v}", "", "[!Ref a, [b]]", "1", "|\n    text"] {
+            for pos in ["k: !{T} {P}\n", "- !{T} {P}\n", "!{T} {P}\n", "k:\n  - !{T} {P}\n  - !{T} {P}\n", "? !{T} {P}\n: v\n"] {
+                let d = pos.replace("{T}", tag).replace("{P}", payload);
+                out.push(cli_case(&["validate", "-r", "@r.guard", "-d", "@d.yaml"], json!({"r.guard": "rule r { k exists }\n", "d.yaml": d}), "", "yaml-tags"));
+                out.push(lib_case("rule r { k exists }\n", &d, "yaml-tags"));
+                let t = format!("- input:\n{}\n  expectations:\n    rules:\n      r: PASS\n", d.lines().map(|l| format!("    {}", l)).collect::<Vec<_>>().join("\n"));
+                out.push(cli_case(&["test", "-r", "@r.guard", "-t", "@t.yaml"], json!({"r.guard": "rule r { k exists }\n", "t.yaml": t}), "", "yaml-tags"));
+            }
+        }
+    }
     // --- negative / huge indices, numeric keys
     for q in ["a[-1]", "a[-2147483648]", "a[2147483647]", "a.0", "a.-1", "a[99999999999]", "a.00", "a['0']", "a[ 0 ]"] {
         for d in ["{\"a\":[1,2]}", "{\"a\":{\"0\":1}}", "{\"a\":[]}", "{\"a\":1}"] {
